@@ -423,6 +423,13 @@ DIRECTED = [
      "prop": "A & B --> A", "steps": [], "goal_id": "1", "facts": [["0"], []]},
     {"name": "rewrite-fact-closes-goal", "theory": "logic", "vars": {"A": "bool"},
      "prop": "~~A --> A", "steps": [], "goal_id": "1", "facts": [["0"], []]},
+    # an earlier visible line states a subgoal's proposition under a hypothesis the goal lacks (cut, then
+    # revert_intro): it does not prove the subgoal, which has to stay open
+    {"name": "earlier-line-with-foreign-hypothesis", "theory": "logic", "vars": {"X": "bool", "C": "bool", "B": "bool"},
+     "prop": "~X --> C --> B",
+     "steps": [{"method_name": "cut", "goal_id": "2", "fact_ids": [], "goal": "X"},
+               {"method_name": "revert_intro", "goal_id": "3", "fact_ids": ["1"]}],
+     "goal_id": "2", "facts": [["0"], [], ["1"], ["0", "1"]]},
     {"name": "conditional-rewrite-with-and-without-its-condition", "theory": "logic", "vars": {"P": "bool", "a": "'a", "b": "'a"},
      "prop": "P --> (if P then a else b) = a", "steps": [], "goal_id": "1", "facts": [[], ["0"], []]},
 ]
@@ -562,14 +569,15 @@ MANIFEST = {
             "compared with the advertised _goal list (proposition, no hypothesis of the goal lost; each advertised goal not left open must be "
             "stated by an earlier visible line or be trivially true by an independent test), the state after a _goal or _fact suggestion "
             "must re-check, an advertised _fact appears as a new non-gap line. Model streams (c14_model): every apply_tactic / forward-step "
-            "primitive call made while applying suggestions; method-level records of cut / forall_elim / apply_fact / new_var / cases against "
-            "cutM / forwardFact / casesM; `advertised-vs-export`: the _goal list of a suggestion = the gaps of the export captured while "
+            "primitive call made while applying suggestions; method-level records of cut / forall_elim / apply_fact / new_var / cases / "
+            "introduction / revert_intro against cutM / forwardFact / casesM / introM / revertIntroM; `advertised-vs-export`: the _goal list of a suggestion = the gaps of the export captured while "
             "applying it. PROVED (exported lines numbered id, id+1, .. without subproofs - checked on every captured export): "
             "open_goals_subset_advertised, solving_shape_closes_exactly_the_goal, advertised_eq_applied_apply_backward_step / _rewrite_goal "
             "(gaps after <= gaps before minus the goal plus the advertised ones, as multisets; nothing advertised = exactly the goal "
             "disappears), advertised_eq_applied_cases (at most the two case goals open), advertised_eq_applied_cut (exactly one new gap "
-            "with the given sequent), advertised_eq_applied_forall_elim (a forward step leaves the gaps exactly as they were). NOT proved: "
-            "introduction (its subproof splice is not modelled), that a vanished advertised gap went through find_goal / trivial (by "
+            "with the given sequent), advertised_eq_applied_forall_elim (a forward step leaves the gaps exactly as they were), "
+            "advertised_eq_applied_introduction (introM = the subproof splice + the already-proved loop, compared with every real "
+            "introduction: the goal line is closed, newly open gaps are among those of the new subproof). NOT proved: that a vanished advertised gap went through find_goal / trivial (by "
             "construction of the model only), search bodies (a tactic is the list of its exported lines; search and apply evaluating the "
             "same term is the stream, not a theorem).",
     "note": "Trusted: Lean kernel (propext/Classical.choice/Quot.sound), harness generators and parameter guesses, the reading of `_goal`/`_fact` "
